@@ -45,3 +45,97 @@ Print Assumptions C13_led_black.
 Theorem C13_led_white_full_scale : led_565 255 255 255 100 = 65535 /\ led_bytes 255 255 255 100 = [255; 255].
 Proof. exact led_white. Qed.
 Print Assumptions C13_led_white_full_scale.
+
+(* ---------------------------------------------------------------- range reports, angle stream *)
+From CF Require Import Common.Struct C13.Stream C13.StreamProofs.
+
+(* a range report carrying any number of (anchor id, float32 distance) pairs decodes to exactly those
+   pairs in order (the Python dict is built by assigning them in this order) *)
+Theorem C13_range_decode : forall l,
+  Forall range_item_ok l -> decode_range (encode_range l) = Some l.
+Proof. exact decode_range_encode. Qed.
+Print Assumptions C13_range_decode.
+
+Theorem C13_range_dict_lookup : forall k v l,
+  NoDup (map fst l) -> In (k, v) l -> dict_get k l = Some v.
+Proof. exact dict_get_distinct. Qed.
+Print Assumptions C13_range_dict_lookup.
+
+Theorem C13_range_bad_length_dropped : forall data,
+  Z.of_nat (length data) mod 5 <> 0 -> decode_range data = None.
+Proof. exact decode_range_bad_length. Qed.
+Print Assumptions C13_range_bad_length_dropped.
+
+(* lighthouse angle stream: base station, the two base angles (float32 patterns, untouched) and the six
+   per-sensor offsets, each decoded to the float whose value is exactly the binary16 value the device
+   sent (so +-0 offsets stay +-0.0 and the sensor angle equals the base angle) *)
+Theorem C13_lh_angle_decode : forall bs bx x1 x2 x3 by_ y1 y2 y3,
+  byte bs -> 0 <= bx < 2 ^ 32 -> 0 <= by_ < 2 ^ 32 ->
+  half_ok x1 -> half_ok x2 -> half_ok x3 -> half_ok y1 -> half_ok y2 -> half_ok y3 ->
+  exists a1 a2 a3 b1 b2 b3,
+    decode_lh_angle (encode_lh_angle bs bx [x1; x2; x3] by_ [y1; y2; y3]) =
+      Some {| lh_bs := bs;
+              lh_x := [Base bx; BaseMinus bx (RF32 a1); BaseMinus bx (RF32 a2); BaseMinus bx (RF32 a3)];
+              lh_y := [Base by_; BaseMinus by_ (RF32 b1); BaseMinus by_ (RF32 b2); BaseMinus by_ (RF32 b3)] |}
+    /\ ieee_decode 8 23 a1 = ieee_decode 5 10 x1 /\ ieee_decode 8 23 a2 = ieee_decode 5 10 x2
+    /\ ieee_decode 8 23 a3 = ieee_decode 5 10 x3 /\ ieee_decode 8 23 b1 = ieee_decode 5 10 y1
+    /\ ieee_decode 8 23 b2 = ieee_decode 5 10 y2 /\ ieee_decode 8 23 b3 = ieee_decode 5 10 y3.
+Proof. exact decode_lh_encode. Qed.
+Print Assumptions C13_lh_angle_decode.
+
+Theorem C13_lh_angle_wrong_length_raises : forall data,
+  length data <> 21%nat -> decode_lh_angle data = None.
+Proof. exact decode_lh_wrong_length. Qed.
+Print Assumptions C13_lh_angle_wrong_length_raises.
+
+(* ---------------------------------------------------------------- compressed trajectories *)
+From Coq Require Import QArith Qround Qabs.
+From CF Require Import C13.Traj C13.TrajProofs.
+Open Scope Z_scope.
+
+(* start element: packs iff all four encoded integers fit int16 (otherwise struct.error: raises, never
+   wraps), and the 8 bytes read back as exactly those integers *)
+Theorem C13_traj_start_accept_iff : forall a b c d,
+  (exists l, pack_start_ints a b c d = Some l) <-> (i16 a /\ i16 b /\ i16 c /\ i16 d).
+Proof. exact pack_start_ints_some_iff. Qed.
+Print Assumptions C13_traj_start_accept_iff.
+
+Theorem C13_traj_start_layout : forall a b c d l,
+  pack_start_ints a b c d = Some l ->
+  unpack [I16; I16; I16; I16] l = Some [a; b; c; d] /\ length l = 8%nat /\ bytes l.
+Proof. exact pack_start_ints_roundtrip. Qed.
+Print Assumptions C13_traj_start_layout.
+
+(* segment: the firmware-side reader recovers duration and the four coefficient lists and consumes
+   exactly the segment's bytes, whatever follows *)
+Theorem C13_traj_segment_layout : forall dur ex ey ez ew l rest,
+  pack_segment_ints dur ex ey ez ew = Some l ->
+  fw_read_segment (l ++ rest) = (dur, ex, ey, ez, ew, rest).
+Proof. exact fw_read_pack_segment. Qed.
+Print Assumptions C13_traj_segment_layout.
+
+Theorem C13_traj_segment_accept_iff : forall dur ex ey ez ew,
+  (exists l, pack_segment_ints dur ex ey ez ew = Some l) <->
+  ((exists a b c d, seg_type (length ex) = Some a /\ seg_type (length ey) = Some b /\
+                    seg_type (length ez) = Some c /\ seg_type (length ew) = Some d) /\
+   0 <= dur < 65536 /\ Forall i16 ex /\ Forall i16 ey /\ Forall i16 ez /\ Forall i16 ew).
+Proof. exact pack_segment_ints_some_iff. Qed.
+Print Assumptions C13_traj_segment_accept_iff.
+
+(* resolution: int(fl(v)) for any rounding fl that is monotone and fixes the integers -32769..32768
+   (IEEE round-to-nearest on binary64 is such an fl) is less than one unit from the exact value v
+   (v = 1000*x in millimetres, v = 10*degrees in tenths of a degree) ... *)
+Theorem C13_traj_resolution : forall fl : Q -> Q,
+  (forall a b, (a <= b)%Q -> (fl a <= fl b)%Q) ->
+  (forall n : Z, -32769 <= n <= 32768 -> (fl (inject_Z n) == inject_Z n)%Q) ->
+  forall v, (-32769 <= v <= 32768)%Q -> (Qabs (inject_Z (Qtrunc (fl v)) - v) < 1)%Q.
+Proof. exact resolution_lt_one. Qed.
+Print Assumptions C13_traj_resolution.
+
+(* ... and beyond the int16 span the integer is beyond it too, so packing raises instead of wrapping *)
+Theorem C13_traj_overflow_raises : forall fl : Q -> Q,
+  (forall a b, (a <= b)%Q -> (fl a <= fl b)%Q) ->
+  (forall n : Z, -32769 <= n <= 32768 -> (fl (inject_Z n) == inject_Z n)%Q) ->
+  forall v, ((32768 <= v)%Q -> 32768 <= Qtrunc (fl v)) /\ ((v <= -32769)%Q -> Qtrunc (fl v) <= -32769).
+Proof. intros fl H1 H2 v. split; [exact (overflow_high fl H1 H2 v)|exact (overflow_low fl H1 H2 v)]. Qed.
+Print Assumptions C13_traj_overflow_raises.
